@@ -256,7 +256,7 @@ def v5(ctx, fx, U):
     arr_fns = {}
     for (fn, b, n) in U.arr_pushes:
         arr_fns.setdefault(fn.name, []).append((fn, b, n))
-    ctx.floor("C03.V5", "array pushes", len(U.arr_pushes), 2)
+    ctx.floor("C03.V5", "array pushes", len(U.arr_pushes), 1)
     for name, lst in arr_fns.items():
         fn = lst[0][0]
         fv = vals(fn)
